@@ -670,7 +670,7 @@ fn run_scenario<S: Settings>(sc: &J, idx: usize) -> J {
                     r
                 }
             }
-            "zarr_async" => {
+            "zarr_async" | "zarr_async_slow" => {
                 let mut names = vec![];
                 for g in ["warmup_sample_stats", "sample_stats"] {
                     for n in &stat_names {
@@ -687,10 +687,24 @@ fn run_scenario<S: Settings>(sc: &J, idx: usize) -> J {
                 let dir = std::path::PathBuf::from(format!("{}/zarra_{}_{}", sc["workdir"].as_str().unwrap_or("/verif/work/storage"), std::process::id(), idx));
                 let _ = std::fs::remove_dir_all(&dir);
                 std::fs::create_dir_all(&dir).map_err(|e| e.to_string())?;
-                let rt = tokio::runtime::Builder::new_multi_thread().worker_threads(2).enable_all().build().map_err(|e| e.to_string())?;
+                let workers = if backend == "zarr_async_slow" { 1 } else { 2 };
+                let rt = tokio::runtime::Builder::new_multi_thread().worker_threads(workers).enable_all().build().map_err(|e| e.to_string())?;
                 let os = object_store::local::LocalFileSystem::new_with_prefix(&dir).map_err(|e| e.to_string())?;
                 let store = Arc::new(zarrs_object_store::AsyncObjectStore::new(os));
                 let cfg = ZarrAsyncConfig::new(rt.handle().clone(), store).with_chunk_size(chunk).store_warmup(store_warmup);
+                // slow write queue: a task that keeps blocking the runtime's only worker for a few milliseconds
+                // between yields, so queued chunk writes are still pending when flush() is entered
+                let stop = Arc::new(std::sync::atomic::AtomicBool::new(false));
+                if backend == "zarr_async_slow" {
+                    let stop2 = stop.clone();
+                    let delay = sc["put_delay_ms"].as_u64().unwrap_or(8);
+                    rt.spawn(async move {
+                        while !stop2.load(std::sync::atomic::Ordering::Relaxed) {
+                            std::thread::sleep(std::time::Duration::from_millis(delay));
+                            tokio::task::yield_now().await;
+                        }
+                    });
+                }
                 let (d2, n2) = (dir.clone(), names.clone());
                 let reader = move || {
                     let s = Arc::new(zarrs::filesystem::FilesystemStore::new(&d2).unwrap());
@@ -701,6 +715,7 @@ fn run_scenario<S: Settings>(sc: &J, idx: usize) -> J {
                     let s = Arc::new(zarrs::filesystem::FilesystemStore::new(&d3).unwrap());
                     zarr_view(s, chains, &n3)
                 }, &reader, &mut events);
+                stop.store(true, std::sync::atomic::Ordering::Relaxed);
                 drop(rt);
                 let _ = std::fs::remove_dir_all(&dir);
                 r
